@@ -332,3 +332,6 @@ PLAN["C05"]["units"] = PLAN["C05"]["units"] + [HP + "_handle_events"]
 # the VC generator; a bounded native enumeration compares every source, labelled as such
 PLAN["C19"]["standins"] = PLAN["C19"]["standins"] + [{"file": "standins/loaders.py", "name": "configuration loaders (Config.from_mapping / from_object / from_pyfile / from_toml, _load_config routes)",
                                                       "label": "BOUNDED stand-in, not counted as proved"}]
+# C11 "HTTP/2 extended CONNECT with version 13": the choice of the stream class on HTTP/2
+PLAN["C11"]["units"] = PLAN["C11"]["units"] + [HP + "_create_stream"]
+PLAN["C11"]["trusted_base"] = PLAN["C11"]["trusted_base"] + LIB_H2
